@@ -393,12 +393,13 @@ static int tree_same(const vnaproperty_t *a, const vnaproperty_t *b, int depth)
 
 static void judge_yaml(int kind, const buf_t *in, int prefill)
 {
-    vnaproperty_t *root = NULL;
+    vnaproperty_t *root = NULL, *before = NULL;
     int rv, e;
 
     if (prefill) {
 	(void)LIB(vnaproperty_set(&root, "key=old"));
 	(void)LIB(vnaproperty_set(&root, "list[1]=x"));
+	(void)LIB(vnaproperty_copy(&before, root));
     }
     vt_cb_reset();
     alarm(LF_ALARM_SECONDS);
@@ -456,11 +457,14 @@ static void judge_yaml(int kind, const buf_t *in, int prefill)
 		clean, resave, reload, same);
     } else {
 	int usable = tree_clean(root, 0);
+	const char *dest = tree_same(root, before, 0) ? "unchanged" :
+	    root == NULL ? "empty" : "partial";
 
 	usable = usable && LIB(vnaproperty_set(&root, "after=1")) == 0;
-	res_put(",\"usable\":%d,\"obj\":0", usable);
+	res_put(",\"usable\":%d,\"obj\":0,\"dest\":\"%s\"", usable, dest);
     }
     (void)LIB(vnaproperty_delete(&root, "."));
+    (void)LIB(vnaproperty_delete(&before, "."));
 }
 
 /* ---------------------------------------------------------- calibrations */
